@@ -70,7 +70,8 @@ UAs == { <<>>,                                   \* no User-Agent header
          <<"kube-probe/1.0", "curl/8">>, <<"curl/8", "kube-probe/1.0">> }   \* two User-Agent lines: decided by the first
 
 Protos    == {"h1", "h2"}
-ConnKinds == {"normal", "sni253", "tworec"}     \* tworec: ClientHello spanning two TLS records (JA3 and JA4 fail)
+ConnKinds == {"normal", "sni253", "tworec", "tworeccs"}     \* tworec: ClientHello spanning two TLS records (JA3 and JA4 fail), cut inside
+                                                             \* the random; tworeccs: cut one octet before the end of the cipher suite list
 CustomOutcomes == {"absent", "value", "empty", "error"}   \* absent = no custom injector configured
 
 Scenario(fam, proto, kind, probe, ph, host, custom, ua, probeText, method, path, lines) ==
@@ -147,8 +148,8 @@ InH == UALines \o ProbeTextLine \o InLines      \* what the handler sees (canoni
 Injectors == IF req.custom = "absent" THEN DefaultInjectors ELSE DefaultInjectors \o <<CUSK>>
 
 \* outcome of injector k for this connection: "value" | "empty" | "error"
-Outcome(k) == CASE k = JA3K -> IF req.kind \in {"sni253", "tworec"} THEN "error" ELSE "value"
-                []  k = JA4K -> IF req.kind = "tworec" THEN "error" ELSE "value"
+Outcome(k) == CASE k = JA3K -> IF req.kind \in {"sni253", "tworec", "tworeccs"} THEN "error" ELSE "value"
+                []  k = JA4K -> IF req.kind \in {"tworec", "tworeccs"} THEN "error" ELSE "value"
                 []  k = H2K  -> IF req.proto = "h2" THEN "value" ELSE "empty"
                 []  k = CUSK -> req.custom
 Computed(k) == CASE k = JA3K -> "JA3" [] k = JA4K -> "JA4" [] k = H2K -> "H2FP" [] k = CUSK -> "CUSTOM"
